@@ -19,6 +19,19 @@ fn main() {
         }
         return;
     }
+    #[cfg(not(kani))]
+    if args.len() >= 3 && args[1] == "--m-c08" {
+        let bad = rvh::mreplay::m_c08(&args[2]);
+        println!("{}", if bad { "MISMATCH" } else { "OK" });
+        return;
+    }
+    #[cfg(not(kani))]
+    if args.len() >= 8 && args[1] == "--m-c15" {
+        let p: Vec<usize> = args[3..8].iter().map(|x| x.parse().unwrap()).collect();
+        let bad = rvh::mreplay::m_c15(p[0], p[1], p[2], p[3], p[4]);
+        println!("{}", if bad { "MISMATCH" } else { "OK" });
+        return;
+    }
     if args.len() < 2 {
         eprintln!("usage: replay <harness> [hex,hex,...]");
         std::process::exit(64);
